@@ -1,4 +1,5 @@
 import ActixNet.Lemmas.SrvListen
+import ActixNet.Lemmas.SrvStrand
 /-!
 # C05 — pause, resume and accept-error back-off never strand a listener
 
@@ -98,41 +99,6 @@ theorem deregister_keeps_socket_path (s : St) (l : Nat) :
     ((deregister s l).lst l).kind = (s.lst l).kind := by
   simp [deregister, upd]
 
-theorem registerAllFrom_other (ls : List Nat) : ∀ (s : St) (l : Nat), l ∉ ls →
-    (registerAllFrom s ls).lst l = s.lst l := by
-  induction ls with
-  | nil => intro s l _; rfl
-  | cons a as ih =>
-    intro s l hl
-    simp only [registerAllFrom]
-    rw [ih _ l (fun h => hl (List.mem_cons_of_mem _ h))]
-    have : l ≠ a := fun h => hl (h ▸ List.mem_cons_self)
-    simp only [register]; split
-    · simp [upd, this]
-    · simp [upd, this]
-
-theorem registerAllFrom_registers (ls : List Nat) (hnd : ls.Nodup) : ∀ (s : St) (l : Nat), l ∈ ls →
-    ((registerAllFrom s ls).lst l).registered = true ∧ ((registerAllFrom s ls).lst l).backlog = (s.lst l).backlog ∧
-    ((registerAllFrom s ls).lst l).linked = (s.lst l).linked ∧ ((registerAllFrom s ls).lst l).deadline = none := by
-  induction ls with
-  | nil => intro s l h; cases h
-  | cons a as ih =>
-    intro s l hl
-    have hnd' := List.nodup_cons.mp hnd
-    simp only [registerAllFrom]
-    rcases List.mem_cons.mp hl with rfl | hl'
-    · rw [registerAllFrom_other as _ l hnd'.1]
-      simp only [register]; split
-      · rename_i h; simp [upd] at h ⊢; exact h
-      · simp [upd]
-    · have := ih hnd'.2 (register { s with lst := upd s.lst a { s.lst a with deadline := none } } a) l hl'
-      have hne : l ≠ a := fun h => hnd'.1 (h ▸ hl')
-      have hsame : (register { s with lst := upd s.lst a { s.lst a with deadline := none } } a).lst l = s.lst l := by
-        simp only [register]; split
-        · simp [upd, hne]
-        · simp [upd, hne]
-      rw [hsame] at this; exact this
-
 /-- **resume re-arms every listener**: after `Resume` is processed every listener (TCP or Unix
 domain) is back in the poll set with its backlog — including connections that arrived during the
 pause — its socket path untouched and **no back-off deadline left** (so that a later `Pause`
@@ -212,6 +178,44 @@ theorem paused_means_every_listener_deregistered (cfg : Cfg) (kinds : List Kind)
     ((run cfg (init cfg kinds) ops).lst l).registered = false :=
   (run_linv cfg ops _ (init_linv cfg kinds)).pd hp l hl
 
+/-- **No listener is ever stranded.**  In every reachable state (any history of pause / resume /
+stop commands, injected accept errors of every kind, clock advances, client connects, worker
+actions, in every order and at every yield point; TCP and Unix-domain listeners alike) in which the
+accept loop has not been stopped: a listener that is out of the poll set is out for a reason that
+brings it back — the server is paused (`resume_rearms`: `Resume` registers every listener), or the
+listener has a back-off deadline (`backoff_expiry_rearms`: `process_timeout` registers it once the
+deadline has passed). -/
+theorem no_listener_stranded (cfg : Cfg) (kinds : List Kind) (ops : List Op) (l : Nat)
+    (hne : (run cfg (init cfg kinds) ops).exited = false) (hl : l < (run cfg (init cfg kinds) ops).nLst)
+    (hreg : ((run cfg (init cfg kinds) ops).lst l).registered = false) :
+    (run cfg (init cfg kinds) ops).paused = true ∨ ((run cfg (init cfg kinds) ops).lst l).deadline.isSome = true := by
+  rcases run_si cfg ops _ (init_linv cfg kinds) (init_si cfg kinds) with h | h
+  · rw [hne] at h; cases h
+  · exact h l hl hreg
+
+/-- … equivalently: while the server is running, not paused and the listener is not backing off, the
+listener is in the poll set (and by `C03.no_lost_wakeup` whatever waits on it is accepted). -/
+theorem running_listener_is_registered (cfg : Cfg) (kinds : List Kind) (ops : List Op) (l : Nat)
+    (hne : (run cfg (init cfg kinds) ops).exited = false) (hl : l < (run cfg (init cfg kinds) ops).nLst)
+    (hp : (run cfg (init cfg kinds) ops).paused = false)
+    (hd : ((run cfg (init cfg kinds) ops).lst l).deadline = none) :
+    ((run cfg (init cfg kinds) ops).lst l).registered = true := by
+  cases hr : ((run cfg (init cfg kinds) ops).lst l).registered with
+  | true => rfl
+  | false =>
+    rcases no_listener_stranded cfg kinds ops l hne hl hr with h | h
+    · rw [hp] at h; cases h
+    · rw [hd] at h; cases h
+
+/-- **A back-off always ends.**  In every reachable state a listener with a back-off deadline has
+the accept thread's poll time-out armed (`Accept::timeout = Some(_)`), so `poll` returns by itself
+and `process_timeout` runs — the listener does not depend on some unrelated event to come back. -/
+theorem backoff_has_timeout_armed (cfg : Cfg) (kinds : List Kind) (ops : List Op) (l : Nat)
+    (hl : l < (run cfg (init cfg kinds) ops).nLst)
+    (hd : ((run cfg (init cfg kinds) ops).lst l).deadline.isSome = true) :
+    (run cfg (init cfg kinds) ops).timeout.isSome = true :=
+  run_tinv cfg ops _ (init_tinv cfg kinds) l hl hd
+
 /-- a listener in accept-error back-off is out of the poll set, in every reachable state -/
 theorem backoff_listener_is_deregistered (cfg : Cfg) (kinds : List Kind) (ops : List Op) (l d : Nat)
     (hd : ((run cfg (init cfg kinds) ops).lst l).deadline = some d) :
@@ -241,5 +245,17 @@ def demoOps : List Op :=
 example : (run demoCfg (init demoCfg [.uds]) demoOps).dispatched.length = 1 ∧
     ((run demoCfg (init demoCfg [.uds]) (demoOps.take 4)).dispatched.length = 0) ∧
     ((run demoCfg (init demoCfg [.uds]) demoOps).lst 0).linked = true := by decide
+
+-- an EMFILE back-off: the listener is out of the poll set with a deadline and the time-out armed (the
+-- hypotheses of `no_listener_stranded` / `backoff_has_timeout_armed` are met by a real history); after
+-- 600 ms the next iteration brings it back and the waiting connection is dispatched
+def backoffOps : List Op :=
+  [.env (.inject 0 .emfile), .env (.connect 0), .poll [.listener 0, .waker] []]
+example : ((run demoCfg (init demoCfg [.tcp]) backoffOps).lst 0).registered = false ∧
+    ((run demoCfg (init demoCfg [.tcp]) backoffOps).lst 0).deadline = some 500 ∧
+    (run demoCfg (init demoCfg [.tcp]) backoffOps).timeout.isSome = true ∧
+    (run demoCfg (init demoCfg [.tcp]) backoffOps).exited = false := by decide
+example : (run demoCfg (init demoCfg [.tcp]) (backoffOps ++ [.env (.advance 600), .poll [.waker] [], .poll [.listener 0, .waker] []])).dispatched.length = 1 := by
+  decide
 
 end ActixNet.C05
